@@ -304,6 +304,7 @@ void MasterMS<Scalar>::init_mms(const std::string& my_name,
   std::string mapped_name = masa_name;
   MASA::masa_map(&mapped_name);
 
+  manufactured_solution<Scalar>* match = NULL;
   for (unsigned int i=0; i != anim.size(); ++i)
     {
       std::string name;
@@ -313,13 +314,20 @@ void MasterMS<Scalar>::init_mms(const std::string& my_name,
           std::cout << "MASA FATAL ERROR:: manufactured solution has no name!\n";
           masa_exit(1);
         }
-      if (name == mapped_name)
-        {
-          _master_map[my_name] = _master_pointer = anim[i];
-          return;
-        }
+      if (name == mapped_name && match == NULL)
+        match = anim[i];
       else
         delete anim[i];
+    }
+
+  if (match != NULL)
+    {
+      // a re-initialised handle releases the instance it replaces
+      typename std::map<std::string, manufactured_solution<Scalar> *>::iterator it=_master_map.find(my_name);
+      if (it != _master_map.end())
+        delete it->second;
+      _master_map[my_name] = _master_pointer = match;
+      return;
     }
 
   std::cout << "MASA FATAL ERROR:: no manufactured solution named " << masa_name << " found!\n";
